@@ -24,7 +24,7 @@ COMPONENTS = {'real': ['pyrtl.Simulation (_initialize, step, _execute, _mem_upda
 
 TIERS = {
     'quick': {'runs': 60000, 'classes': 8, 'budget_s': 70},
-    'thorough': {'runs': 400000, 'classes': 32, 'budget_s': 1100},
+    'thorough': {'runs': 2000000, 'classes': 32, 'budget_s': 1100},
 }
 
 
